@@ -323,15 +323,15 @@ theorem depsLoop_post (db : Db) (req : Required)
         exact hc
 
 /-- **The walk is sound and complete** (tables without unsetup lines): any completed recursive call satisfies `CallPost`. -/
-theorem depsOf_post (db : Db) (hns : NoUnsetup db) (req : Required) :
-    ∀ f top depth st out st', depsOf db f req top true depth st = some (out, st') →
+theorem depsOf_post (db : Db) (hns : NoUnsetup db) (req : Required) {g : Guard} :
+    ∀ f top depth st out st', depsOfG db f g req top true depth st = some (out, st') →
       CallPost db req top st out st' := by
   intro f
   induction f with
-  | zero => intro top depth st out st' h; simp [depsOf] at h
+  | zero => intro top depth st out st' h; simp [depsOfG] at h
   | succ k ih =>
     intro top depth st out st' h
-    unfold depsOf at h
+    unfold depsOfG at h
     obtain ⟨new, P⟩ := depsLoop_post db req _ _ top depth (tableMissing_false hns) (fun p dp st out st' hq => ih p dp st out st' hq)
       _ _ _ _ _ (table_noUnsetup hns top) (fun _ h => h) h
     have hout : out = new := by rw [P.out_eq]; simp
